@@ -253,3 +253,87 @@ def reset_lazies():
 
 
 load_config()
+
+
+# --------------------------------------------------------------------------- real-file fixtures
+
+_SCRATCH = None
+
+
+def scratch_testdata() -> str:
+    """A private copy of the repo's testdata/ (real handlers write cache files into the
+    served tree).  Created once per process, outside any tracer, removed at exit."""
+    global _SCRATCH
+    if _SCRATCH is None:
+        import atexit
+        import shutil
+        import tempfile
+
+        d = tempfile.mkdtemp(prefix="vk-%d-" % os.getpid())
+        dst = os.path.join(d, "testdata")
+        shutil.copytree(os.path.join(REPO, "testdata"), dst, symlinks=True)
+        for dirpath, dirs, files in os.walk(dst):
+            for f in files:
+                if f.startswith(".cache.pygopherd"):
+                    os.unlink(os.path.join(dirpath, f))
+        atexit.register(shutil.rmtree, d, True)
+        _SCRATCH = dst
+    return _SCRATCH
+
+
+FULL_HANDLERS = (
+    "[url.HTMLURLHandler, gophermap.BuckGophermapHandler, mbox.MaildirFolderHandler, "
+    "mbox.MaildirMessageHandler, ZIP.ZIPHandler, UMN.UMNDirHandler, html.HTMLFileTitleHandler, "
+    "mbox.MBoxMessageHandler, mbox.MBoxFolderHandler, pyg.PYGHandler, scriptexec.ExecHandler, "
+    "tal.TALFileHandler, file.CompressedFileHandler, file.FileHandler]"
+)
+
+
+def real_config(full_handlers: bool = False, **over) -> "DictConfig":
+    cfg = DictConfig(True)
+    cfg.set("pygopherd", "root", scratch_testdata())
+    if full_handlers:
+        cfg.set("handlers.HandlerMultiplexer", "handlers", FULL_HANDLERS)
+        cfg.set("handlers.ZIP.ZIPHandler", "enabled", "true")
+        cfg.set("handlers.file.CompressedFileHandler", "decompressors", "{'gzip' : 'zcat'}")
+    for k, v in over.items():
+        cfg.set(*k, v) if isinstance(k, tuple) else None
+    return cfg
+
+
+class BytesReader:
+    """rfile over concrete bytes (no io.BytesIO under the tracer)."""
+
+    def __init__(self, data: bytes):
+        self.data = data
+        self.pos = 0
+
+    def readline(self, *a):
+        i = self.data.find(b"\n", self.pos)
+        end = len(self.data) if i < 0 else i + 1
+        r = self.data[self.pos:end]
+        self.pos = end
+        return r
+
+    def read(self, n=-1):
+        if n is None or n < 0:
+            n = len(self.data) - self.pos
+        r = self.data[self.pos:self.pos + n]
+        self.pos += len(r)
+        return r
+
+    def close(self):
+        pass
+
+
+def make_request_handler(rfile, wfile, config, tls=False, addr=("10.9.8.7", 4321)):
+    """A real GopherRequestHandler wired to the given files without running a server."""
+    from pygopherd.server import GopherRequestHandler
+
+    h = GopherRequestHandler.__new__(GopherRequestHandler)
+    h.rfile = rfile
+    h.wfile = wfile
+    h.request = tls_socket() if tls else object()
+    h.client_address = addr
+    h.server = make_server(config)
+    return h
